@@ -16,7 +16,11 @@ PROP = dict(
          'referee of the reference semantics; 3 generated build roots (files, directories, symlinks, names with '
          'literal asterisks) with a package-file list and a 1..6 line add-files script (plain/wildcard add and omit '
          'for every type, absent=skip, comments, refused lines) through GenerateFileList + ReadUserFileList + '
-         'Finalize; 1 add-files script through the stagemaker binary (-list stage -files -addfiles) on a stage '
+         'Finalize -- every second run of the third of these slots (30 per quick run) is a script around a line with a WILDCARD src= below the build root '
+         '(dir|file|node <target> src=$$stageroot/<dir>/<pattern>: source directories with nested non-empty subdirectories, equal base '
+         'names in different subdirectories, empty subdirectories, symlinks, flat directories as controls; targets new or with '
+         'members, also members with the name of a source entry but another type; omit lines on the entries the line must have made); '
+         '1 add-files script through the stagemaker binary (-list stage -files -addfiles) on a stage '
          'skeleton; 1 stagemaker -generate run with -compress / -o / recipe compress lines (method read from the '
          'magic bytes of the output); 2 recipe files through the stagemaker binary (-list system -recipe, with and without -root/'
          '-profile/-atoms/-atomsfile switches); of these, 2 in 3 of the second slot are recipes whose root/profile/atomsfile '
@@ -29,7 +33,7 @@ PROP = dict(
                 'parseLine/ReadUserFileList never panic on any byte string; accepted lines use only documented '
                 'type/option pairs; parse_mod s=(a,o) acts on every mode as the chmod reference (GNU reading) does; '
                 'uid/gid/dev values are the decimal reading within range; wildcard add/omit add/remove exactly the '
-                'glob matches; one bad recipe line fails the run; per structured line / recipe / script the model '
+                'glob matches; a wildcard src= below the build root adds exactly the matches at their paths relative to the source directory; one bad recipe line fails the run; per structured line / recipe / script the model '
                 'of the code agrees with the manual (C17_holds). Per case Coq evaluates wf, model=obs, spec(obs)',
     assumptions=[
         'constants regenerated from the source on every run (Gen/Consts.v) that the predicate or the documented part of the model rests on -- the four compressor extension tables, groupMasks / settingMasks, vdb.PermBits and FileType_* -- are compared with literals by theorem C17_constants_pinned: an edit of one of them is reported (proof obligation no longer checks) and has to be reviewed; values the manual does not state are the values of the reviewed tree',
@@ -39,10 +43,14 @@ PROP = dict(
         'uid=N:M is documented only by the source comment ("both the GID and UID"): either assignment order is accepted',
         'manual inconsistencies resolved as: dir accepts src= (shown in the manual\'s example), the root name "/" '
         'and signed ids (+5, -0), duplicate options, dev= together with src=, wildcards inside src=/targ= values '
-        'are unspecified (only "no crash" and model=code are checked there)',
+        'are unspecified at line level (only "no crash" and model=code are checked there); at list level an entry that the parser model '
+        'took with a wildcard src= below $$stageroot has the documented effect doc_src_wild: the matches of the pattern in the source '
+        'directory (recursively for dir) appear below the name at their paths relative to the source directory -- the manual has no '
+        'sentence on asterisks in src=; this reading combines its src= paragraph ("recursively copies source-directory entries") with '
+        'its globbing paragraph, and uses the glob model for the set of matches',
         'filepath.Glob/Match, path.Clean, strings.TrimSpace/Fields, bufio.Scanner, strconv.ParseInt/ParseUint are '
         'modelled, not verified; names containing ? [ or a backslash not followed by * inside a globbed name, ".." '
-        'components, symlinked parent directories and src= at list level are outside the modelled domain (wf false)',
+        'components, symlinked parent directories and src= at list level other than a wildcard source below $$stageroot are outside the modelled domain (wf false)',
     ],
     trusted_extra=['/bin/chmod (GNU coreutils) as referee of Model/StageDoc.chmod_ref; the stagemaker binary is built by '
                    'the driver from the working tree with -tags verif'],
